@@ -71,6 +71,17 @@ func (l *Lexer) dropCarriageReturns() {
 	}
 }
 
+// atKeyword reports whether the input continues with the keyword as a whole word,
+// an identifier that merely starts with it (e.g. 'tasks') is not the keyword.
+func (l *Lexer) atKeyword(keyword string) bool {
+	rest := l.rest()
+	if !strings.HasPrefix(rest, keyword) {
+		return false
+	}
+	next, _ := utf8.DecodeRuneInString(rest[len(keyword):])
+	return !isValidIdent(next)
+}
+
 // all returns the string from the lexer start position to it's current position.
 func (l *Lexer) all() string {
 	if l.start >= len(l.input) || l.pos > len(l.input) {
@@ -231,7 +242,7 @@ func lexStart(l *Lexer) lexFn {
 	switch {
 	case strings.HasPrefix(l.rest(), token.HASH.String()):
 		return lexHash
-	case strings.HasPrefix(l.rest(), token.TASK.String()):
+	case l.atKeyword(token.TASK.String()):
 		return lexTaskKeyword
 	case isValidIdent(l.peek()):
 		return lexIdent
@@ -482,6 +493,7 @@ func lexIdent(l *Lexer) lexFn {
 			break
 		}
 	}
+	name := l.all()
 	l.emit(token.IDENT)
 	l.skipWhitespace()
 
@@ -491,6 +503,16 @@ func lexIdent(l *Lexer) lexFn {
 		return lexLeftParen
 	case strings.HasPrefix(l.rest(), token.DECLARE.String()):
 		// We have a global variable declaration
+		if name == token.TASK.String() {
+			// At the start of a line 'task' is always the keyword, a variable of that
+			// name could never be read back
+			return l.error(syntaxError{
+				message: "'task' is a keyword and cannot be used as a variable name",
+				context: l.getLine(),
+				line:    l.line,
+				pos:     l.pos,
+			})
+		}
 		return lexDeclare
 	case l.atEOL(), l.atEOF():
 		// We've just lexed an ident on the RHS of a declaration
